@@ -3,3 +3,7 @@ pub mod preprocess;
 pub mod glyf_min;
 pub mod glyf_lite;
 pub mod varmodel;
+pub mod otl_gpos;
+pub mod cmap;
+pub mod glyf;
+pub mod type2;
